@@ -359,6 +359,51 @@ public:
         }
         if (vd->hasInit()) {
             o["init_text"] = textOf(vd->getInit());
+            // a table of integer literals ( constexpr std::array<uint8_t, N> T = {2, 3, 5, ...} ): the values, for rules that
+            // need the last entry of a sorted table
+            {
+                struct IntCollector : RecursiveASTVisitor<IntCollector>
+                {
+                    json::Array vals;
+                    bool other = false;
+                    bool VisitIntegerLiteral(IntegerLiteral* il) {
+                        if (vals.size() < 4096) {
+                            vals.push_back(static_cast<int64_t>(il->getValue().getLimitedValue()));
+                        }
+                        return true;
+                    }
+                    bool VisitDeclRefExpr(DeclRefExpr*) {
+                        other = true;
+                        return true;
+                    }
+                    bool VisitCallExpr(CallExpr*) {
+                        other = true;
+                        return true;
+                    }
+                    bool VisitFloatingLiteral(FloatingLiteral*) {
+                        other = true;
+                        return true;
+                    }
+                    bool VisitBinaryOperator(BinaryOperator*) {
+                        other = true;
+                        return true;
+                    }
+                    bool VisitUnaryOperator(UnaryOperator*) {
+                        other = true;
+                        return true;
+                    }
+                } ic;
+                const Expr* i0 = vd->getInit()->IgnoreImplicit();
+                if (auto* ewc0 = dyn_cast<ExprWithCleanups>(i0)) {
+                    i0 = ewc0->getSubExpr()->IgnoreImplicit();
+                }
+                if (isa<InitListExpr>(i0)) {
+                    ic.TraverseStmt(const_cast<Expr*>(i0));
+                    if (!ic.other && ic.vals.size() >= 2) {
+                        o["init_ints"] = std::move(ic.vals);
+                    }
+                }
+            }
             // does the initialiser mention a parameter, `this`, or another non-constant variable?
             struct RefFinder : RecursiveASTVisitor<RefFinder>
             {
